@@ -21,7 +21,16 @@ type propDef struct {
 var props = map[string]*propDef{}
 
 func register(id string, run func(c *Check), explanation string, assumptions ...string) {
-	props[id] = &propDef{id: id, run: run, explanation: explanation, assumptions: assumptions}
+	wrapped := run
+	if pk := errDisciplinePkgs[id]; len(pk) > 0 {
+		n := strings.TrimLeft(strings.TrimPrefix(id, "C"), "0")
+		wrapped = func(c *Check) {
+			run(c)
+			errorDiscipline(c, "R"+n+".E", pk...)
+		}
+		explanation += " R" + n + ".E error discipline in the packages this property rests on (" + strings.Join(pk, ", ") + "): no call's error result is discarded (deferred, go'd or unused) outside the reasoned exemption table, and a value produced together with an error is returned only across that call's success edge or together with that error."
+	}
+	props[id] = &propDef{id: id, run: wrapped, explanation: explanation, assumptions: assumptions}
 }
 
 func main() {
